@@ -125,7 +125,6 @@ def range_model(start: int, limit: int, delta: int, src: int, mid: int, via: str
 def tabulate() -> dict:
     import onnx_ir as ir
     opt = _opt()
-    cast = [(s, m, bool(opt._cast_roundtrip_is_value_preserving(s, m))) for s in CODES for m in CODES]
     valid = [d.value for d in ir.DataType if d.value != 0]
     fold = []
     for s in valid:
@@ -134,13 +133,30 @@ def tabulate() -> dict:
                 fold.append((s, m, bool(probe_fold(s, m))))
             except Exception:  # a probe the IR cannot even build is not a fold
                 fold.append((s, m, False))
-    bounds = [(c, opt._integer_dtype_bounds(c)) for c in CODES]
-    fmts = []
-    for d in ir.DataType:
-        fmts.append((d.value, opt._standard_float_format(d), opt._complex_component_format(d),
-                     opt._integer_format(d) if d.value not in (0, 8) else None))
-    return {"cast": cast, "fold": fold, "bounds": bounds, "fmts": fmts,
-            "shape_only": sorted(opt._INTEGER_VALUE_PRESERVING_OPS)}
+    # function-level tables are read through private helpers; when a refactoring renames one, the
+    # behaviour-level table (what the pass really folds) stands in for it
+    MISSING.clear()
+    decide_fn = _priv(opt, "_cast_roundtrip_is_value_preserving")
+    if decide_fn is not None:
+        cast = [(s, m, bool(decide_fn(s, m))) for s in CODES for m in CODES]
+    else:
+        folded = {(s, m): f for s, m, f in fold}
+        cast = [(s, m, bool(folded.get((s, m), False))) for s in CODES for m in CODES]
+    bounds_fn = _priv(opt, "_integer_dtype_bounds")
+    bounds = [(c, bounds_fn(c)) for c in CODES] if bounds_fn is not None else []
+    shape_only = _priv(opt, "_INTEGER_VALUE_PRESERVING_OPS")
+    return {"cast": cast, "fold": fold, "bounds": bounds,
+            "shape_only": sorted(shape_only) if shape_only is not None else []}
+
+
+MISSING: list[str] = []
+
+
+def _priv(opt, name: str):
+    v = getattr(opt, name, None)
+    if v is None and name not in MISSING:
+        MISSING.append(name)
+    return v
 
 
 def generate(tabs: Optional[dict] = None) -> dict:
@@ -515,17 +531,26 @@ def run(chk: Check) -> None:
     src = 7
     lines, cases = [], []
     nodes_cache = {}
+    kb_fn = _priv(opt, "_known_integer_value_bounds")
+    kf_fn = _priv(opt, "_cast_roundtrip_known_values_fit")
     for (a, l, d) in triples:
         try:
             model, source = range_model(a, l, d, src, 6)
         except Exception:
             continue
         nodes = list(model.graph)
-        code_bounds = opt._known_integer_value_bounds(nodes, source)
-        lines.append(f"rb {a} {l} {d}")
-        cases.append(("rb", a, l, d, None, code_bounds))
+        if kb_fn is not None:
+            code_bounds = kb_fn(nodes, source)
+            lines.append(f"rb {a} {l} {d}")
+            cases.append(("rb", a, l, d, None, code_bounds))
         for mid in (mids if (abs(a) > 100 or rng.chance(0.15)) else mids[:2]):
-            fit = bool(opt._cast_roundtrip_known_values_fit(nodes, source, src, mid))
+            if kf_fn is not None:
+                fit = bool(kf_fn(nodes, source, src, mid))
+            else:           # behaviour level: does the real pass fold this round trip?
+                if len(cases) > 600:
+                    break
+                res = range_before_after(a, l, d, src, mid)
+                fit = bool(res and res.get("folded"))
             lines.append(f"kf {src} {mid} {a} {l} {d}")
             cases.append(("kf", a, l, d, mid, fit))
     answers = common.run_driver("C17", lines)
@@ -581,6 +606,10 @@ def run(chk: Check) -> None:
     check_multi_pairs(chk, rng, 150 if not thorough else 1500)
     shape_bad = check_shape_only_ops(chk, tabs["shape_only"])
     chk.info("shape_only_ops_probe", {"operators": tabs["shape_only"], "violating": shape_bad})
+    if MISSING:
+        chk.info("private_helpers_not_found_behaviour_level_tie_used", sorted(MISSING))
+        chk.log("private helpers not found (renamed?): " + ", ".join(sorted(MISSING)) +
+                " — the behaviour-level tables (what the pass really folds) are used instead")
     for b in shape_bad:
         if "output" in b:
             range_found = True
